@@ -33,7 +33,7 @@ def edVerify (pk msg sig : Bytes) : Bool := Prim.Ed25519.verify (ba pk) (ba msg)
 
 /-! ### P-384 -/
 def p384Decode (b : Bytes) : Prim.P384.Dec := Prim.P384.decode (ba b)
-def p384Compress (P : Prim.P384.Pt) : Option Bytes := (Prim.P384.compress P).map ob
+def p384Compress (P : Prim.P384.Pt) : Option Bytes := (Prim.P384.compress P).map (fun b => fixLen 49 (ob b))
 def p384Pub (d : Nat) : Option Bytes := (Prim.P384.publicKey d).map ob
 
 /-- RFC 6979 deterministic nonce for ECDSA-P384-SHA384 (HMAC-DRBG over HMAC-SHA384) -/
